@@ -25,7 +25,7 @@ N_STRUCT = 512
 
 
 def plan(tier, seed):
-    return dict(n=N_STRUCT + 700 if tier == 'quick' else N_STRUCT * 8 + 300000, budget_s=85 if tier == 'quick' else 840, case_timeout=120)
+    return dict(n=N_STRUCT + 1500 if tier == 'quick' else N_STRUCT * 8 + 300000, budget_s=85 if tier == 'quick' else 840, case_timeout=120)
 
 
 def conv(x, S):
